@@ -20,7 +20,7 @@ SPLINE_MAX = 3000
 
 
 TREND_FAMILIES = ["poly", "sin", "const", "npscalar", "poly_sum", "poly_dot", "daily_inplace", "math_sin", "step",
-                  "late_ramp", "clipped", "ufunc"]
+                  "late_ramp", "clipped", "ufunc", "poly1d"]
 
 
 def trend_fun(desc):
@@ -53,6 +53,8 @@ def trend_fun(desc):
     if kind == "ufunc":             # a bare NumPy ufunc object handed over as the trend
         return {"sin": np.sin, "cos": np.cos, "tanh": np.tanh, "log1p_abs": np.fabs, "arctan": np.arctan,
                 "expm1_neg": np.negative}[c[0]]
+    if kind == "poly1d":            # numpy.poly1d objects: callable, with __len__ = degree (a constant polynomial is FALSY)
+        return np.poly1d(list(c))
     if kind == "late_ramp":         # "growth starts later": the int literal 0 first, fractions afterwards
         return lambda t: 0 if t < c[1] else c[0] * (t - c[1])
     if kind == "clipped":           # max(0, ...) returns the int 0 or a float
@@ -80,6 +82,11 @@ def gen_trend(rng, x, y, normalized, families=None):
         c = [mag * c[0]]
     elif fam == "ufunc":
         c = [["sin", "cos", "tanh", "log1p_abs", "arctan", "expm1_neg"][int(rng.integers(0, 6))]]
+    elif fam == "poly1d":
+        deg = int(rng.integers(0, 4))          # highest power first, as numpy.poly1d takes them; degree 0 = constant trend
+        c = [mag * float(v) / s ** (deg - j) for j, v in enumerate(rng.normal(0, 1, deg + 1))]
+        if deg == 0 and rng.integers(0, 3) == 0:
+            c = [0.0]                          # the zero trend
     elif fam == "daily_inplace":
         c = [mag * c[0], (1.0 if normalized else span) / float(rng.choice([1.0, 2.5, 7.0])), c[2]]
     elif fam == "step":
@@ -149,6 +156,8 @@ def _gen_op(rng, wv, allow=None, new_x_container=True):
                 method = ["linear", "constant", "cubic", "spline"][int(rng.integers(0, 4))]
                 if rng.integers(0, 2):
                     k = int(rng.integers(4, min(2 * n + 3, 600)))
+                    if rng.integers(0, 4) == 0 and n >= 4:
+                        k = n            # resampled onto as many points as there were: same length, another grid
                     return {"op": op, "args": [], "kw": {"n": k, "method": method}}
                 k = int(rng.integers(4, min(2 * n + 3, 600)))
                 inner = np.sort(rng.uniform(float(x[0]), float(x[-1]), k - 2))
